@@ -55,6 +55,7 @@ type Scenario struct {
 	SxBin      string   `json:"sx_bin"`
 	SxArgs     []string `json:"sx_args"`
 	SxStdin    string   `json:"sx_stdin"`
+	CPUList    string   `json:"cpu_list,omitempty"`  // run sx under taskset -c <list>
 	SigintMs   int      `json:"sigint_after_ms"`     // live scans: interrupt sx after this long at the latest
 	SigintN    int      `json:"sigint_after_frames"` // ... or as soon as this many non-IPv6 frames were captured
 	FloodHex   string   `json:"flood_hex"`           // a frame sent to sx's side of FloodIface again and again from the first probe until sx has exited
@@ -292,6 +293,8 @@ func main() {
 				return
 			}
 			name := ifc.Name
+			// a deep transmit queue: frames sx writes faster than this process reads them must not be dropped by the device
+			ip("link", "set", name, "txqueuelen", "20000")
 			idleCtr := new(int64)
 			idle[name] = idleCtr
 			closers = append(closers, func() { f.Close() })
@@ -387,6 +390,10 @@ func main() {
 
 	t0 := time.Now()
 	cmd := exec.Command(sc.SxBin, sc.SxArgs...)
+	if sc.CPUList != "" {
+		// the scanner pinned to a CPU set (a one-vCPU host): taskset execs sx, so signals reach sx itself
+		cmd = exec.Command("taskset", append([]string{"-c", sc.CPUList, sc.SxBin}, sc.SxArgs...)...)
+	}
 	cmd.Stdin = strings.NewReader(sc.SxStdin)
 	var so, se bytes.Buffer
 	cmd.Stdout, cmd.Stderr = &so, &se
